@@ -1,4 +1,9 @@
+// build probe for hooks H2-H4 (replaced by the real check)
+use p3_circuit_prover::verif_hooks::set_matrix_tamper;
 fn main() {
+    set_matrix_tamper(None);
+    let _ = p3_recursion::pcs::fri::verifier_verif_hooks::circuit_exp_by_constant::<p3_baby_bear::BabyBear>;
+    let _ = p3_recursion::pcs::mmcs::verif_select_cap_entry::<p3_baby_bear::BabyBear>;
     eprintln!("MACHINERY-ERROR: check c04 not built yet");
     std::process::exit(2);
 }
